@@ -62,6 +62,43 @@ public:
                 << " " << hx::hexd(ptrs[i]->pr_si_f);
     std::cout << "\n";
   }
+  // prn <iterations> <volume> <TK> <n> {<hexname> <moles>}*n : the no-argument calc_PR() of gases.cpp on hand-made gas unknowns
+  static void prn(IPhreeqc* p, const std::vector<std::string>& w) {
+    Phreeqc* e = p->PhreeqcPtr;
+    int iter = std::stoi(w[1]);
+    double vol = hx::unhexd(w[2]), TK = hx::unhexd(w[3]);
+    size_t n = (size_t)std::stoul(w[4]);
+    std::vector<class unknown> us(n);
+    std::vector<class phase*> ptrs;
+    double msum = 0;
+    for (size_t i = 0; i < n; i++) {
+      class phase* ph = find(e, hx::unhex(w[5 + 2 * i]));
+      if (!ph) { std::cout << "R unknown-gas\n"; return; }
+      us[i].type = GAS_MOLES; us[i].phase = ph; us[i].moles = hx::unhexd(w[6 + 2 * i]);
+      msum += us[i].moles;
+      ptrs.push_back(ph);
+    }
+    cxxGasPhase gp;
+    gp.Set_type(cxxGasPhase::GP_VOLUME);
+    gp.Set_volume(vol);
+    std::vector<class unknown*> saved = e->gas_unknowns;
+    e->gas_unknowns.clear();
+    for (size_t i = 0; i < n; i++) e->gas_unknowns.push_back(&us[i]);
+    e->use.Set_gas_phase_ptr(&gp);
+    e->iterations = iter; e->state = REACTION; e->tk_x = TK;
+    double ret = 0; bool thrown = false;
+    try { ret = e->calc_PR(); } catch (...) { thrown = true; }
+    e->use.Set_gas_phase_ptr(NULL);
+    e->gas_unknowns = saved;
+    if (thrown) { std::cout << "R exception\n"; return; }
+    if (msum == 0) { std::cout << "R early\n"; return; }
+    std::cout << "R " << hx::hexd(gp.Get_v_m()) << " " << hx::hexd(e->b_sum) << " " << hx::hexd(e->a_aa_sum);
+    for (size_t i = 0; i < n; i++)
+      std::cout << " " << hx::hexd(ptrs[i]->fraction_x) << " " << hx::hexd(ptrs[i]->pr_p) << " " << hx::hexd(ptrs[i]->pr_phi)
+                << " " << hx::hexd(ptrs[i]->pr_si_f);
+    std::cout << " " << hx::hexd(gp.Get_total_p()) << "\n";
+    (void)ret;
+  }
   static void after_run(IPhreeqc* p) {
     Phreeqc* e = p->PhreeqcPtr;
     std::cout << "X nfv " << (e->numerical_fixed_volume ? 1 : 0) << "\n";
@@ -103,6 +140,7 @@ int main() {
     else if (op == "dump") TestIPhreeqc::dump(p);
     else if (op == "fresh") TestIPhreeqc::fresh(p);
     else if (op == "pr" && w.size() >= 6 && w.size() == 6 + 2 * std::stoul(w[5])) TestIPhreeqc::pr(p, w);
+    else if (op == "prn" && w.size() >= 5 && w.size() == 5 + 2 * std::stoul(w[4])) TestIPhreeqc::prn(p, w);
     else if (op == "mark") std::cout << "M " << w[1] << "\n";
     else if (op == "run") {
       p->SetSelectedOutputStringOn(false); p->SetOutputStringOn(false); p->SetErrorStringOn(true);
